@@ -13,6 +13,9 @@ fn runs_for(target: &str) -> u64 {
     "rope_prog" => 600_000,
     "tree_prog" => 400_000,
     "sched_prog" => 120_000,
+    "tree_c02" | "tree_c03" | "tree_c04" | "tree_c11" => 400_000,
+    "hist_c05" | "hist_c10" | "pair_c14" => 300_000,
+    "triple_c13" => 60_000,
     _ => 500_000,
   }
 }
